@@ -291,6 +291,23 @@ def r19b(model: Model, rr: RuleResult):
         rr.ok("OT-SVG: try_reuse is consulted for every PaintGlyph outside .notdef")
     else:
         rr.bad(gg, t2[0], f"OT-SVG reuse look-up is skipped under {f3}", construct=f"_glyph_groups: try_reuse under {f3}")
+    # a donor that try_reuse found is not discarded before it is recorded
+    adds = [c for c in calls_in(gg) if callee_tail(c) == "add_glyph" and len(c.args) == 3]
+    if len(adds) == 1 and isinstance(adds[0].args[2], ast.Name):
+        ds = gcfg.reaching(gcfg.node_for(adds[0]), adds[0].args[2].id)
+        if ds and all(isinstance(d.value, ast.Call) and callee_tail(d.value) == "try_reuse" for d in ds):
+            rr.ok("OT-SVG: the result of try_reuse reaches ReuseCache.add_glyph unmodified")
+        else:
+            rr.bad(gg, adds[0], f"the reuse result recorded for a glyph is not always what try_reuse returned ({[short(d.value) for d in ds]}): a found donor "
+                   f"can be discarded and the shape stored again", construct=f"_glyph_groups: reuse_result redefined before add_glyph")
+    wfu = model.func("write_font", "_migrate_paths_to_ufo_glyphs._update_paint_glyph")
+    wcfg2 = cfg_of(wfu)
+    trc = find_calls(wfu, "try_reuse")
+    uses = [n for n in walk_body(wfu) if isinstance(n, ast.Name) and n.id == "reuse_result" and isinstance(n.ctx, ast.Load)]
+    if trc and uses and all(len(wcfg2.reaching(wcfg2.node_for(u), "reuse_result")) == 1 for u in uses):
+        rr.ok("COLR: reuse_result is bound once, by try_reuse")
+    else:
+        rr.bad(wfu, wfu.node, "reuse_result is redefined after try_reuse in the COLR path", construct="_update_paint_glyph: reuse_result redefined")
     pc = [c for c in calls_in(model.func("svg", "_picosvg_docs")) if norm(c.func) == "GlyphReuseCache"]
     for modname, fn in (("write_font", "_colr_ufo"), ("write_font", "_glyf_ufo"), ("svg", "_picosvg_docs")):
         f4 = model.func(modname, fn)
